@@ -28,16 +28,17 @@ import (
 )
 
 type engine struct {
-	a    *lib.Args
-	rng  *lib.Rng
-	m    *lib.Model
-	rep  *lib.Report
-	le   *logrus.Entry
-	ctx  context.Context
-	bus  bus.Bus
-	dis  map[string]int
-	spy  *linkSpy // C34: the only controller answering EstablishLinkWithPeer on the harness bus
-	fwdN int
+	onlyKinds map[string]bool // C37 sweep restricted to these directive types (nil = all)
+	a         *lib.Args
+	rng       *lib.Rng
+	m         *lib.Model
+	rep       *lib.Report
+	le        *logrus.Entry
+	ctx       context.Context
+	bus       bus.Bus
+	dis       map[string]int
+	spy       *linkSpy // C34: the only controller answering EstablishLinkWithPeer on the harness bus
+	fwdN      int
 }
 
 // cmp is rep.Compare, except that after three disagreements with the same finding key further
@@ -188,6 +189,16 @@ func main() {
 	case "C36":
 		e.runC36()
 	case "C37":
+		e.runC37()
+	case "C04", "C05", "C07", "C30":
+		// these properties rely on the bus merging two requests only when they are the same
+		// request: the IsEquivalent of the directive types their mechanisms are reached through
+		e.onlyKinds = map[string]map[string]bool{
+			"C04": {"EstablishLinkWithPeer": true, "HandleMountedStream": true},
+			"C05": {"DialTptAddr": true, "LookupTptAddr": true, "LookupTransport": true, "EstablishLinkWithPeer": true},
+			"C07": {"HandleMountedStream": true},
+			"C30": {"SolicitProtocol": true},
+		}[a.Prop]
 		e.runC37()
 	default:
 		fmt.Println("unknown property", a.Prop)
